@@ -28,8 +28,17 @@ MANIFEST = {
             "call must get the payload tagged with its own call.",
     "note": "Trusted: Coq kernel + vm_compute; fidelity of the hand model at the granularity stated in coq/P2P/ReqResp.v "
             "(requester critical sections atomic - the translator checks they contain one map operation only; Go select and "
-            "channel semantics; libp2p streams deliver or fail); the translator; harness and glue. Real time is not modelled: "
-            "'before the deadline' = before the attempt's timer fired; bounded completion is in steps and timer periods.",
+            "channel semantics; libp2p streams deliver or fail); the translator (skeleton, pinned statement lists of RequestFrom / "
+            "request / respond / constructors / the locked part of onResponse, pinned early returns before the lock); harness and glue. "
+            "Real time is not modelled: 'before the deadline' = before the attempt's timer fired; bounded completion is in steps and "
+            "timer periods. Real-time handling of the check: the driver measures a load factor at start and multiplies every margin "
+            "(watchdogs, lock probes, statistics quiescence = three equal snapshots, timeouts of the margin-based batches) by it; "
+            "deviations that cannot come from load (payload of another call, wrong-ID delivery, truncated payload, panic, an accepted "
+            "response not returned or two attempts of a call with accepted responses, more attempts than the budget, a timeout before "
+            "the budget is used, leaked entries, a blocked layer, shutdown ending with neither response nor error) are reported at "
+            "once; only timing-dependent deviations of margin-based plans are re-run in isolation (margins x2, then x4, the batch's own "
+            "rate limit, whole batch for forced schedules and limit batches) and dropped if a usable re-run is clean. Obligations: "
+            ">= 90 % of calls with usable acceptance statistics, >= 2 usable shutdown scenarios.",
 }
 IMPORTS = "From LE Require Import P2P.ReqResp Corr.C17."
 KIND = {"N": 1, "E": 2, "D": 3, "W": 4}
